@@ -199,9 +199,17 @@ def d2(ctx, F):
     # helper panics are attributed to their call sites
     helper_findings = {}
 
+    # helpers / closures that the router interpreter sees written out inside the poll bodies (its configuration inlines the topic and
+    # sink modules): their unwraps are evaluated path-sensitively there as well
+    from . import routers
+    written_out = set()
+    for which in ("pubsub", "reqrep"):
+        cfg_, _i, _m = routers.config(F, which)
+        written_out |= {bl.get("origin") for bl in cfg_.body.blocks if bl.get("origin")}
+
     def skip(site):
         # the routers' own Option/Result unwraps are PollAI's (path-sensitive); everything else stays here
-        return site.body.path in polls and site.kind == "unwrap"
+        return site.kind == "unwrap" and (site.body.path in polls or (site.body.path in written_out and site.body.path not in entry_paths))
 
     class Collect:
         pass
@@ -316,6 +324,59 @@ def d5(ctx, F):
     c05.d3(ctx, F)
 
 
+def _within_region(b, within):
+    """blocks that execute only when the guard held: those dominated by its `within` edge, extended through flags — a bool (or an
+    Option) local whose every `true` (`Some`) definition lies in the region and whose other definitions are the literal `false` (`None`)
+    carries the guard to the positive edge of any switch on it (`let fits = matches!(..); fits.then_some(x)`, `match helper() { Some(x) => .. }`)"""
+    W = {i for i in range(len(b.blocks)) if b.dominates(within, i)}
+    for _ in range(4):
+        grew = False
+        pos = {}
+        for l, ds in b.defs().items():
+            if not ds or any(d[0] != "assign" for d in ds):
+                continue
+            kinds = []
+            for d in ds:
+                rv = d[3]
+                if rv["k"] == "use" and isinstance(flow.const_of(rv["op"]), bool):
+                    kinds.append(("pos" if flow.const_of(rv["op"]) else "neg", d[1]))
+                elif rv["k"] == "agg" and rv.get("adt") == "core::option::Option":
+                    kinds.append(("pos" if rv.get("variant") == "Some" else "neg", d[1]))
+                elif rv["k"] == "use" and rv["op"].get("k") in ("copy", "move") and not rv["op"]["pl"]["p"] and rv["op"]["pl"]["l"] in pos:
+                    kinds.append(("pos", d[1]) if d[1] in W else ("copy", d[1]))
+                else:
+                    kinds.append(("other", d[1]))
+            if any(k == "pos" for k, _ in kinds) and all((k == "pos" and bb in W) or k == "neg" for k, bb in kinds):
+                pos[l] = True
+        # whole-local copies of such a flag
+        for _2 in range(3):
+            for l, ds in b.defs().items():
+                if l in pos or len(ds) != 1 or ds[0][0] != "assign":
+                    continue
+                rv = ds[0][3]
+                if rv["k"] == "use" and rv["op"].get("k") in ("copy", "move") and not rv["op"]["pl"]["p"] and rv["op"]["pl"]["l"] in pos:
+                    pos[l] = True
+        for i, bl in enumerate(b.blocks):
+            t = bl["term"]
+            if t["k"] != "switch" or bl.get("cleanup"):
+                continue
+            edge = None
+            if t.get("discr_ty") == "bool" and op_local(t["discr"]) in pos:
+                edge = t["otherwise"]
+            else:
+                v = flow.switch_on_variant(b, i)
+                if v and v[1] == "core::option::Option" and not v[0]["p"] and v[0]["l"] in pos:
+                    edge = v[2].get("Some", v[3])
+            if edge is not None:
+                for j in range(len(b.blocks)):
+                    if j not in W and b.dominates(edge, j) and len(b.pred_map()[edge]) <= 1:
+                        W.add(j)
+                        grew = True
+        if not grew:
+            break
+    return W
+
+
 def d6_tagged_request_fits(ctx, F):
     """quantifier clause "requests that fit the limit only before the server adds its routing tag": the request/reply router adds the
     `cid` header to a request that was within the frame limit when it arrived; the tagged frame may exceed it, the replier's sink would
@@ -352,7 +413,8 @@ def d6_tagged_request_fits(ctx, F):
         for gi, within, glc, op in guards:
             measured = flow.root_local(b, glc.args[0])
             if measured in fv or measured == fl:
-                if somes and all(b.dominates(within, i2) for i2, s2 in somes) and op in ("Le", "Gt"):
+                W = _within_region(b, within)
+                if somes and all(i2 in W for i2, s2 in somes) and op in ("Le", "Gt"):
                     ok = True
         where = s["span"]
     ctx.check(ok, "C11.D6.tagged-request-fits", "reqrep:tagged-request-unchecked",
